@@ -157,3 +157,11 @@ Definition g_declared (p : pdef) (v : sval) : bool :=
   | ShObj decl None, SObj kvs => forallb (fun kv => str_in (fst kv) (map fst decl)) kvs
   | _, _ => true
   end.
+
+(* class 7: a query object parameter whose schema declares no properties is never reported as
+   found (the found flag is computed by iterating over the declared properties) *)
+Definition g_query_obj_found (p : pdef) : bool :=
+  match pd_in p, shape_of (pd_schema p) with
+  | LQuery, ShObj [] _ => false
+  | _, _ => true
+  end.
